@@ -5,6 +5,7 @@ import Frugal.Proofs.ReadTyped
 import Frugal.Props.Inst.Params
 import Frugal.Props.Inst.F_skeleton_decoder
 import Frugal.Props.Inst.F_valid_minWire
+import Frugal.Props.Inst.F_skeleton_descTable
 namespace Frugal.C03
 open Frugal
 
@@ -60,4 +61,12 @@ example : wfFields [(1, .i32 7), (9, .list 11 [.str [65]]), (1, .i32 8)] = true 
     control structure (guards, switches, loops, returns, call sequence): regenerated fingerprint =
     committed fingerprint of the unchanged tree -/
 theorem model_written_from_this_code : Generated.facts.decoderSkeleton = Skeleton.decoder := Instances.skeleton_decoder
+/-- the schema the theorems quantify over reaches the codec through the descriptor tables (field index
+    by id, required ids, offsets, per-field flags and fixed sizes, the type node's tag / size / alignment /
+    element nodes): the declarations `structDesc`, `tField`, `tType` and the functions that fill them in
+    (`fromDefsFields`, `fromDefsField`, `GetField`, `newTType`) are, as full text, those the model and the
+    correspondence runs were validated against (regenerated fingerprint) -/
+theorem descriptor_tables_built_as_modelled : Generated.facts.descTableSkeleton = Skeleton.descTable :=
+  Instances.skeleton_descTable
+
 end Frugal.C03
